@@ -314,3 +314,32 @@ Fixpoint py_fstring (parts : list pyval) : res pyval :=
   | VStr s :: r => do t <- py_fstring r; match t with VStr u => Ok (VStr (s ++ u)) | _ => Err EUnmodelled end
   | _ :: _ => Err EUnmodelled
   end.
+
+(** os.path.join(a, b) on posix *)
+Definition py_path_join (a b : pyval) : res pyval :=
+  match a, b with
+  | VStr x, VStr y =>
+      Ok (VStr (match y with
+                | 47%N :: _ => y
+                | _ => match x with
+                       | [] => y
+                       | _ => if ends_with_c 47 x then x ++ y else x ++ 47%N :: y
+                       end
+                end))
+  | _, _ => Err ETypeError
+  end.
+
+(** getattr(obj, name): objects with data attributes are rendered as dicts attribute name -> value *)
+Definition py_getattr (o n : pyval) : res pyval :=
+  match o, n with
+  | VDict l, VStr _ => match pv_assoc pv_eqb n l with Some v => Ok v | None => Err EAttribute end
+  | _, VStr _ => Err EAttribute
+  | _, _ => Err ETypeError
+  end.
+
+(** try: x = <r>  except <e>: <h>   (else continue with k x); other exceptions propagate *)
+Definition py_catch {A B} (r : res A) (e : err) (h : unit -> res B) (k : A -> res B) : res B :=
+  match r with
+  | Ok a => k a
+  | Err e' => if err_eqb e' e then h tt else Err e'
+  end.
